@@ -313,7 +313,31 @@ class FuncGraph:
         env[s.name] = self.mk('unknown', ('local class',), s)
         return None
 
+    def _unroll_literal_comprehension(self, s, env):
+        """a, b = (f(x) for x in (p, q))   ->   a = f(p); b = f(q)     (generator / list comprehension over a literal tuple, unpacked at once)"""
+        if len(s.targets) != 1 or not isinstance(s.targets[0], (ast.Tuple, ast.List)) or not isinstance(s.value, (ast.GeneratorExp, ast.ListComp)):
+            return False
+        comp, tgt = s.value, s.targets[0]
+        if len(comp.generators) != 1:
+            return False
+        gen = comp.generators[0]
+        if gen.ifs or gen.is_async or not isinstance(gen.target, ast.Name) or not isinstance(gen.iter, (ast.Tuple, ast.List)):
+            return False
+        if len(gen.iter.elts) != len(tgt.elts) or any(isinstance(e, ast.Starred) for e in list(gen.iter.elts) + list(tgt.elts)):
+            return False
+        items = [self.expr(e, env) for e in gen.iter.elts]
+        vals = []
+        for it in items:
+            env2 = dict(env)
+            env2[gen.target.id] = it
+            vals.append(self.expr(comp.elt, env2))
+        for t, v in zip(tgt.elts, vals):
+            self.assign(t, v, env, s)
+        return True
+
     def st_Assign(self, s, env):
+        if self._unroll_literal_comprehension(s, env):
+            return None
         v = self.expr(s.value, env)
         for t in s.targets:
             self.assign(t, v, env, s)
